@@ -53,9 +53,12 @@ fn main() {
             let mut reqs = Vec::new();
             for (p, g, _, _) in registry() { if p == prop { g(tier, &mut rng, &mut reqs); } }
             let mut capped = 0usize;
+            let mut skipped = 0usize;
             for r in reqs {
                 alloc::reset();
                 let o = exec_line(&r);
+                // a property's generator may run out of its wall-clock budget: such requests are not part of the run
+                if o.starts_with("skipped:") { skipped += 1; continue; }
                 // harness memory cap (not for C06, whose subject is the allocation itself)
                 // script-evaluation properties construct values (NUM2BIN, CAT); their cap is 1 MiB so that the list-based
                 // Lean model never has to build multi-megabyte items; wire properties keep the protocol's 32 MiB
@@ -63,6 +66,7 @@ fn main() {
                 if prop != "C06" && alloc::max_request() > cap { capped += 1; continue; }
                 writeln!(w, "{}\t{}", r, o).unwrap();
             }
+            if skipped > 0 { eprintln!("memcap: skipped {} generated case(s): the generator's wall-clock budget was used up", skipped); }
             if capped > 0 { eprintln!("memcap: dropped {} case(s) whose evaluation requested more than the harness memory cap at once", capped); }
         }
         Some("replay") => {
